@@ -280,4 +280,13 @@ def rule_stopiteration_safe(ctx: Ctx, rule: str = "C04.noswallow"):
     rep.ok(rule, "package", "no executor/wrapper function applies callbacks through map()/filter()/itertools", functions=len(fns), sites=n)
 
 
-RULES = [rule_release, rule_clear, rule_noswallow, rule_state, rule_nosticky, rule_stopiteration_safe]
+def rule_failure_of_an_awaitable_surfaces(ctx: Ctx):
+    """C04.noswallow (async engine): a callback fails when the awaitable it hands back fails - whatever kind of callable produced
+    it (a plain function, a lambda or a decorated method returning a coroutine). The wrapper awaits every awaitable result; one that
+    is dropped un-awaited never runs, its exception never reaches the caller and the transition completes as if it had succeeded."""
+    from . import c05
+
+    c05.rule_wrapper(ctx, rule="C04.noswallow")
+
+
+RULES = [rule_release, rule_clear, rule_noswallow, rule_state, rule_nosticky, rule_stopiteration_safe, rule_failure_of_an_awaitable_surfaces]
